@@ -42,12 +42,122 @@ type Session struct {
 	Calls  []Call `json:"calls"`
 }
 
+// fault class and syntactic position -> statement(s) that fail at run time (all of them compile)
+var faultSnippets = map[string]string{
+	"arith-asg":          `t = 1 + "s"`,
+	"arith-if":           `if 1 + "s" > 0 { t = 1 }`,
+	"arith-elseif":       `if false { t = 0 } else if 2 * "s" > 0 { t = 1 }`,
+	"arith-forinit":      `for k = 1 - "s"; k < 1; k += 1 { t = 1 }`,
+	"arith-forcond":      `for k = 0; k < 1 + "s"; k += 1 { t = 1 }`,
+	"arith-forstep":      `for k = 0; k < 2; k += "s" { t = 1 }`,
+	"arith-return":       `return 1 + "s"`,
+	"arith-arg":          `ev(1 + "s")`,
+	"arith-conc":         "conc {\n t = 1 + \"s\"\n u = 2\n }",
+	"div-zero":           `t = 7 / 0`,
+	"div-zero-if":        `if 7 / zero > 1 { t = 1 }`,
+	"cmp-asg":            `t = 1 < "s"`,
+	"cmp-if":             `if "s" > 1 { t = 1 }`,
+	"cmp-return":         `return true == 1`,
+	"logic-asg":          `t = 1 && true`,
+	"logic-if":           `if true || "s" { t = 1 }`,
+	"cond-notbool":       `if 1 { t = 1 }`,
+	"cond-notbool-for":   `for k = 0; 1; k += 1 { t = 1 }`,
+	"not-nonbool":        `t = !1`,
+	"not-nonbool-if":     `if !fobj.I { t = 1 }`,
+	"not-nonbool-return": `return !"s"`,
+	"undef-var":          `t = nosuch + 1`,
+	"undef-var-if":       `if nosuch > 1 { t = 1 }`,
+	"undef-var-return":   `return nosuch`,
+	"undef-var-arg":      `ev(nosuch)`,
+	"undef-var-range":    `forRange k := nosuch { t = 1 }`,
+	"undef-func":         `nosuchfn(1)`,
+	"undef-func-if":      `if nosuchfn(1) { t = 1 }`,
+	"undef-method":       `fobj.NoSuch()`,
+	"undef-method-asg":   `t = fobj.NoSuch(1)`,
+	"undef-three":        `fobj.In.NoSuch()`,
+	"undef-field":        `t = fobj.NoField + 1`,
+	"undef-field-if":     `if fobj.NoField > 1 { t = 1 }`,
+	"undef-field-set":    `fobj.NoField = 1`,
+	"undef-obj-set":      `nosuchobj.F = 1`,
+	"nil-deref":          `t = nilobj.I`,
+	"nil-deref-if":       `if nilobj.I > 1 { t = 1 }`,
+	"nil-deref-set":      `nilobj.I = 1`,
+	"nil-deref-2":        `t = fobj.NilIn.I`,
+	"nil-deref-2-if":     `if fobj.NilIn.I == 0 { t = 1 }`,
+	"nil-deref-call":     `fobj.NilIn.M()`,
+	"nil-method":         `nilobj.M()`,
+	"index-read":         `t = farr[9]`,
+	"index-read-if":      `if farr[9] > 1 { t = 1 }`,
+	"index-read-return":  `return farr[9]`,
+	"index-write":        `farr[9] = 1`,
+	"index-empty":        `t = fempty[0]`,
+	"index-var":          "big = 99\n    t = farr[big]",
+	"index-neg":          `t = farr[-1]`,
+	"badkey-kind":        `t = fms[1]`,
+	"badkey-kind-set":    `fms[1] = 2`,
+	"mapkey-undef":       `t = fms[nosuch]`,
+	"index-str":          `t = farr["k"]`,
+	"index-nonmap":       `t = fobj["k"]`,
+	"argcount":           `ev2(1)`,
+	"argcount-more":      `ev(1, 2, 3)`,
+	"argkind":            `evint("s")`,
+	"argkind-meth":       `fobj.MI("s")`,
+	"store-kind":         `fobj.I = "s"`,
+	"store-kind-bool":    `fobj.B = 3`,
+	"store-value":        `fval.I = 3`,
+	"store-scalar":       `fnum = 3`,
+	"panic-func":         `boomfn()`,
+	"panic-func-if":      `if boomfn() { t = 1 }`,
+	"panic-func-arg":     `ev(boomfn())`,
+	"panic-func-return":  `return boomfn()`,
+	"panic-method":       `fobj.Boom()`,
+	"panic-conc":         "conc {\n boomfn()\n t = 1\n fobj.Boom()\n }",
+	"nil-func":           `nilfn()`,
+	"break-outside":      `break`,
+	"continue-outside":   `continue`,
+	"unbounded-for":      `for k = 0; k < 1; k += 0 { t = 1 }`,
+	"unbounded-nested":   "for k = 0; k < 3; k += 1 {\n for k = 0; k < 1; k += 1 { t = 1 }\n }",
+	"range-noniter":      `forRange k := fobj { t = 1 }`,
+	"range-int":          `forRange k := fnum { t = 1 }`,
+	"four-level":         `t = fobj.In.X.Y`,
+}
+
+type FIn struct{ I int64 }
+
+func (f *FIn) M() int64 { return f.I }
+
+type FObj struct {
+	I     int64
+	B     bool
+	In    *FIn
+	NilIn *FIn
+}
+
+func (f *FObj) M() int64         { return f.I }
+func (f *FObj) MI(x int64) int64 { return x }
+func (f *FObj) Boom() int64      { panic("method panics") }
+
+func faultData() map[string]interface{} {
+	var nilobj *FObj
+	var nilfn func() int64
+	return map[string]interface{}{
+		"fobj": &FObj{I: 5, In: &FIn{I: 6}}, "nilobj": nilobj, "farr": []int64{1, 2, 3}, "fempty": []int64{},
+		"fms": map[string]int64{"k": 1}, "fval": FObj{I: 1}, "fnum": int64(4), "zero": int64(0),
+		"boomfn": func() bool { panic("injected function panics") }, "nilfn": nilfn,
+		"ev": func(v interface{}) {}, "ev2": func(a, b int64) {}, "evint": func(a int64) {},
+	}
+}
+
 func ruleText(rs []Rule) string {
 	var sb strings.Builder
 	for _, r := range rs {
 		n := r.Name
 		fmt.Fprintf(&sb, "rule \"%s\" \"desc-%s\" salience %d\nbegin\n", n, n, r.Sal)
 		fmt.Fprintf(&sb, "  enter(\"%s\")\n", n)
+		if strings.HasPrefix(r.Tpl, "F:") {
+			// C09: a fault of the given class and position inside this rule, fired when the call says so
+			fmt.Fprintf(&sb, "  if doFault(\"%s\") {\n    prefail(\"%s\")\n    %s\n  }\n", n, n, faultSnippets[r.Tpl[2:]])
+		}
 		fmt.Fprintf(&sb, "  if doTag(\"%s\") { stag.StopTag = true }\n", n)
 		fmt.Fprintf(&sb, "  if doFail(\"%s\") { boom(\"%s\") }\n", n, n)
 		fmt.Fprintf(&sb, "  if doRet(\"%s\") { v = leaveRet(\"%s\")\n return v }\n", n, n)
@@ -89,7 +199,12 @@ func apis() map[string]interface{} {
 		"enter": func(n string) {
 			cur.o.EmitStart(obs.Event{"ev": "start", "r": n}, n)
 		},
-		"doTag":     func(n string) bool { return cur.tagset[n] },
+		"doTag":   func(n string) bool { return cur.tagset[n] },
+		"doFault": func(n string) bool { return cur.beh[n] == "fault" },
+		"prefail": func(n string) {
+			// the fault follows: the end of this execution is logged as failed before it happens
+			cur.o.EmitEnd(obs.Event{"ev": "end", "r": n, "out": "fail", "val": "", "st": false})
+		},
 		"doFail":    func(n string) bool { return cur.beh[n] == "fail" },
 		"doRet":     func(n string) bool { return cur.beh[n] == "ret" },
 		"doRetNil":  func(n string) bool { return cur.beh[n] == "retnil" },
@@ -159,6 +274,9 @@ func runSession(s *Session, quiet time.Duration, seed int64, callTimeout time.Du
 	all = append(all, obs.Event{"ev": "session", "id": s.ID})
 	text := ruleText(s.Rules)
 	api := apis()
+	for k, v := range faultData() {
+		api[k] = v
+	}
 	stag := &engine.Stag{}
 
 	var g *engine.Gengine
